@@ -19,6 +19,8 @@ type gridClient struct {
 	// Spec, if set, is applied to a HelloCustom connection.
 	Spec func() (*tls.ClientHelloSpec, error)
 	PSK  bool // spec carries a pre_shared_key extension: run with OmitEmptyPsk
+	// NextProtos is the application's Config.NextProtos for this run.
+	NextProtos []string
 }
 
 func specHasPSK(id tls.ClientHelloID) bool {
@@ -74,6 +76,7 @@ func gridClients(nSeeds int, withFP bool) []gridClient {
 func (g gridClient) config(serverName string) *tls.Config {
 	c := peer.ClientConfig(serverName)
 	c.OmitEmptyPsk = g.PSK
+	c.NextProtos = append([]string(nil), g.NextProtos...)
 	return c
 }
 
